@@ -2,6 +2,7 @@ package rules
 
 import (
 	"fmt"
+	"go/constant"
 	"go/token"
 	"go/types"
 
@@ -410,14 +411,44 @@ func checkC06(p *core.Program, r *core.Report) {
 				return ok && c.Call.StaticCallee() == flush
 			})
 			key := "flush after reader store in " + shortFn(p.FnName(s.Fn))
-			if badRet := core.PathSearch(s.Fn, s.In, core.IsReturn, callsFlush.Instr, nil); badRet != nil {
+			if !followedBy(p, s.Fn, s.In, callsFlush.Instr, 2) {
 				r.Fail(R2, key, p.Pos(s.In.Pos()), "after installing the SPINE reader the held-back payloads are not flushed synchronously on every path (a `go` flush or a missing one lets later datagrams overtake buffered ones)")
 			} else {
 				r.OK(R2, key, p.Pos(s.In.Pos()), "flush is called synchronously before the approving function returns")
 			}
 		}
+		// ... and not before the handshake is reported complete: every call of the flush is preceded by the
+		// state change to Complete
+		cComplete := p.Const("model", "SmeStateComplete")
+		setsComplete := func(in ssa.Instruction) bool {
+			c, ok := in.(*ssa.Call)
+			if !ok || cComplete == nil {
+				return false
+			}
+			t := c.Call.StaticCallee()
+			if t == nil || p.PkgShort(t) != "ship" {
+				return false
+			}
+			for _, a := range c.Call.Args {
+				if k := core.ConstOf(a); k != nil && types.Identical(a.Type(), cComplete.Type()) && constant.Compare(k, token.EQL, cComplete.Val()) {
+					return true
+				}
+			}
+			return false
+		}
+		for _, s := range core.Sites(shipFns, func(in ssa.Instruction) bool {
+			c, ok := in.(*ssa.Call)
+			return ok && c.Call.StaticCallee() == flush
+		}) {
+			key := "flush in " + shortFn(p.FnName(s.Fn)) + " only after the state is Complete"
+			if precededBy(p, s.Fn, s.In, setsComplete, 2) {
+				r.OK(R2, key, p.Pos(s.In.Pos()), "the completed state is set (and reported) before held-back datagrams are released")
+			} else {
+				r.Fail(R2, key, p.Pos(s.In.Pos()), "held-back datagrams are handed to the application before the connection is in (and reported as) the completed state: they are delivered earlier than completion")
+			}
+		}
 	}
-	r.Floor(R2, 6)
+	r.Floor(R2, 7)
 
 	// ---- R3 (package ws)
 	checkOutgoingQueue(p, r, R3)
@@ -644,4 +675,27 @@ func checkOutgoingQueue(p *core.Program, r *core.Report, R3 string) {
 		r.Floor(R3, 4)
 	}
 
+}
+
+// followedBy: on every path from instruction at to the end of the operation, an instruction satisfying pred is
+// executed - before at's function returns, or (when that function is a helper) after each plain call of it in its
+// callers, up to depth levels.
+func followedBy(p *core.Program, fn *ssa.Function, at ssa.Instruction, pred func(ssa.Instruction) bool, depth int) bool {
+	ensureCallSites(p)
+	if core.PathSearch(fn, at, core.IsReturn, pred, nil) == nil {
+		return true
+	}
+	sites := gCallSites[fn]
+	if depth == 0 || len(sites) == 0 {
+		return false
+	}
+	for _, cs := range sites {
+		if _, isCall := cs.(*ssa.Call); !isCall {
+			return false
+		}
+		if !followedBy(p, cs.Parent(), cs, pred, depth-1) {
+			return false
+		}
+	}
+	return true
 }
